@@ -10,7 +10,10 @@ partition of operand pairs (ordered, equal, NaN, infinities, ints beyond float r
 closer than the float resolution, bool/int mixes, strings, bytes, partially ordered sets):
 both distances non-negative and not NaN, exactly one zero, the zero one being the outcome of
 Python's own operator, and no exception unless the operator itself raises.
-String-distance magnitudes and user classes with partial protocols are not decided.
+The partition includes user classes with partial or inconsistent rich-comparison protocols (only __ge__ / only
+__le__, a str subclass with its own equality or order, a container whose __contains__ disagrees with its
+iteration or whose __iter__ raises) and exception classes matched through a metaclass hook or ABC registration
+(the interpreter matches along the MRO only).  String-distance magnitudes are not decided.
 """
 
 from __future__ import annotations
@@ -26,15 +29,15 @@ from sa.engine.index import canonical_by_callee, AnalysisError, last_attr, norm,
 TR = "pynguin.instrumentation.tracer"
 TU = "pynguin.utils.type_utils"
 
-HELPER_OP = {"_eq": ast.Eq, "_neq": ast.NotEq, "_lt": ast.Lt, "_le": ast.LtE, "_in": ast.In, "_nin": ast.NotIn, "_is": ast.Is, "_isn": ast.IsNot}
+HELPER_OP = {"_eq": ast.Eq, "_neq": ast.NotEq, "_lt": ast.Lt, "_le": ast.LtE, "_gt": ast.Gt, "_ge": ast.GtE, "_in": ast.In, "_nin": ast.NotIn, "_is": ast.Is, "_isn": ast.IsNot}
 # compare kind -> (true helper, args), (false helper, args); a = value1, b = value2
 TABLE = {
     "EQ": (("_eq", "ab"), ("_neq", "ab")),
     "NE": (("_neq", "ab"), ("_eq", "ab")),
     "LT": (("_lt", "ab"), ("_le", "ba")),
     "LE": (("_le", "ab"), ("_lt", "ba")),
-    "GT": (("_lt", "ba"), ("_le", "ab")),
-    "GE": (("_le", "ba"), ("_lt", "ab")),
+    "GT": (("_gt", "ab"), ("_le", "ab")),  # the operator the module evaluates, not its reflection (partial protocols)
+    "GE": (("_ge", "ab"), ("_lt", "ab")),
     "IN": (("_in", "ab"), ("_nin", "ab")),
     "NOT_IN": (("_nin", "ab"), ("_in", "ab")),
     "IS": (("_is", "ab"), ("_isn", "ab")),
@@ -286,14 +289,14 @@ def check(ctx) -> None:
     bad = []
     body = ecp.body
     for kind in TABLE:
-        pairs = MEMBER_PAIRS if kind in ("IN", "NOT_IN") else (ORDER_PAIRS + (IDENT_PAIRS if kind in ("IS", "IS_NOT", "EQ", "NE") else []))
+        pairs = (MEMBER_PAIRS + USER_MEMBER_PAIRS) if kind in ("IN", "NOT_IN") else (ORDER_PAIRS + USER_ORDER_PAIRS + (IDENT_PAIRS if kind in ("IS", "IS_NOT", "EQ", "NE") else []))
         for a, b in pairs:
             try:
                 expected = bool(PYOP[kind](a, b))
                 op_raises = None
             except Exception as exc:  # noqa: BLE001 - Python's own operator on the representative pair
                 expected, op_raises = None, type(exc).__name__
-            it = peval.Interp(resolver=resolve, identity=("tt.unwrap",), sinks=("self._update_metrics",))
+            it = peval.Interp(resolver=resolve, identity=("tt.unwrap",), sinks=("self._update_metrics",), native_types=USER_TYPES)
             env = {"self": peval.Token("self"), va: a, vb: b, params[3]: 0, params[4]: peval.Token(f"PynguinCompare.{kind}")}
             outcome = None
             try:
@@ -348,11 +351,12 @@ def check(ctx) -> None:
     eem = _canon(repo, repo.func(TR, "ExecutionTracer.executed_exception_match"))
     eparams = [a.arg for a in eem.args.args]
     EXC_CASES = [(ValueError("x"), ValueError), (ValueError, ValueError), (KeyError("k"), LookupError), (KeyError("k"), (ValueError, KeyError)), (KeyError("k"), (ValueError, OSError)),
-                 (ValueError("x"), (TypeError, (ValueError, OSError))), (OSError(), Exception), (KeyboardInterrupt(), Exception), (ZeroDivisionError(), ArithmeticError)]
+                 (ValueError("x"), (TypeError, (ValueError, OSError))), (OSError(), Exception), (KeyboardInterrupt(), Exception), (ZeroDivisionError(), ArithmeticError),
+                 (ValueError("x"), _HookedExc), (_HookedExc(), _HookedExc), (ValueError("x"), _VirtualExc), (ValueError("x"), (OSError, _VirtualExc)), (_VirtualExc(), Exception)]
     for err, exc in EXC_CASES:
         et = err if isinstance(err, type) else type(err)
-        expected = issubclass(et, exc)
-        it = peval.Interp(resolver=resolve, identity=("tt.unwrap",), sinks=("self._update_metrics",))
+        expected = _handler_matches(et, exc)
+        it = peval.Interp(resolver=resolve, identity=("tt.unwrap",), sinks=("self._update_metrics",), native_types=(_HookedExc, _VirtualExc))
         env = {"self": peval.Token("self"), eparams[1]: err, eparams[2]: exc, eparams[3]: 0}
         desc = f"EXC_MATCH({et.__name__}, {_short(exc)})"
         try:
@@ -398,6 +402,121 @@ def check(ctx) -> None:
         ctx.check("C04.numeric", ebp, good, f"{desc}: true={dt} false={df} but the interpreter takes the {'true' if expected else 'false'} outcome", what=f"{desc}: true={dt} false={df}", stmt=f"[partition] {desc}")
 
 
+class _GeTrue:
+    """Defines only >=, which holds (partial rich-comparison protocol)."""
+
+    def __ge__(self, other):
+        return True
+
+    def __repr__(self):
+        return "GeTrue()"
+
+
+class _LeFalse:
+    """Defines only <=, which does not hold: `GeTrue() >= LeFalse()` is True, the reflected `LeFalse() <= GeTrue()` is False."""
+
+    def __le__(self, other):
+        return False
+
+    def __repr__(self):
+        return "LeFalse()"
+
+
+class _GtTrue:
+    def __gt__(self, other):
+        return True
+
+    def __repr__(self):
+        return "GtTrue()"
+
+
+class _LtFalse:
+    def __lt__(self, other):
+        return False
+
+    def __repr__(self):
+        return "LtFalse()"
+
+
+class _StrNeverEqual(str):
+    """A str subclass with its own equality (e.g. a secret that refuses comparison)."""
+
+    def __eq__(self, other):
+        return False
+
+    def __ne__(self, other):
+        return True
+
+    __hash__ = str.__hash__
+
+
+class _StrNeverLess(str):
+    def __lt__(self, other):
+        return False
+
+    def __le__(self, other):
+        return False
+
+
+class _ContainsFalse:
+    """Membership answered by __contains__ (False) although iteration yields the needle."""
+
+    def __init__(self, items):
+        self.items = list(items)
+
+    def __contains__(self, item):
+        return False
+
+    def __iter__(self):
+        return iter(list(self.items))
+
+    def __repr__(self):
+        return f"ContainsFalse({self.items})"
+
+
+class _IterRaises:
+    def __contains__(self, item):
+        return False
+
+    def __iter__(self):
+        raise RuntimeError("not iterable right now")
+
+    def __repr__(self):
+        return "IterRaises()"
+
+
+class _AlwaysSubclassMeta(type):
+    def __subclasscheck__(cls, sub):
+        return True
+
+
+class _HookedExc(Exception, metaclass=_AlwaysSubclassMeta):
+    """issubclass(ValueError, _HookedExc) is True through the metaclass hook; `except _HookedExc` does not catch a ValueError."""
+
+
+import abc as _abc  # noqa: E402
+
+
+class _VirtualExc(Exception, metaclass=_abc.ABCMeta):
+    pass
+
+
+_VirtualExc.register(ValueError)
+
+
+def _handler_matches(et, exc) -> bool:
+    """The interpreter's rule: identity along the MRO, tuples element-wise."""
+    if isinstance(exc, tuple):
+        return any(_handler_matches(et, e) for e in exc)
+    return any(b is exc for b in et.__mro__)
+
+
+USER_TYPES = (_GeTrue, _LeFalse, _GtTrue, _LtFalse, _StrNeverEqual, _StrNeverLess, _ContainsFalse, _IterRaises)
+USER_ORDER_PAIRS = [(_GeTrue(), _LeFalse()), (_LeFalse(), _GeTrue()), (_GtTrue(), _LtFalse()), (_LtFalse(), _GtTrue()), (_StrNeverEqual("a"), _StrNeverEqual("a")), (_StrNeverEqual("a"), "a"),
+                    (_StrNeverLess("a"), "b"), (_StrNeverLess("a"), "a")]
+USER_MEMBER_PAIRS = [(1, _ContainsFalse([1])), (1, _ContainsFalse([2])), (1, _IterRaises())]
+
+
 class _TruthyEmpty:
     """Truth value and size disagree (e.g. an always-truthy result set that is empty)."""
 
@@ -430,4 +549,4 @@ def _short(v):
 
 
 def _sym(op):
-    return {ast.Eq: "==", ast.NotEq: "!=", ast.Lt: "<", ast.LtE: "<=", ast.In: "in", ast.NotIn: "not in", ast.Is: "is", ast.IsNot: "is not"}[op]
+    return {ast.Eq: "==", ast.NotEq: "!=", ast.Lt: "<", ast.LtE: "<=", ast.Gt: ">", ast.GtE: ">=", ast.In: "in", ast.NotIn: "not in", ast.Is: "is", ast.IsNot: "is not"}[op]
